@@ -73,6 +73,9 @@ def gen_sdl_ops(rng, L):
             [["iter"]] + N(L) + [["state"], ["fresh"], ["load", 0], ["iter"]] + N(b),
             [["iter"]] + N(a) + [["state"], ["iter"]] + N(b) + [["load", 0], ["next"], ["iter"]] + N(b),
             [["iter"]] + N(a) + [["state"], ["load_empty"], ["iter"]] + N(b),
+            [["state"], ["load_empty"], ["iter"]] + N(b),                                          # state_dict() built the iterator; {} drops it
+            [["iter"]] + N(a) + [["state"], ["fresh"], ["load", 0], ["state"], ["load_empty"], ["iter"]] + N(b),
+            [["state"], ["load_empty"], ["state"], ["iter"]] + N(b) + [["iter"]] + N(b),
             [["iter"]] + N(a) + [["iter"]] + N(b) + [["iter"]] + N(L + 1) + [["iter"]] + N(b),
             [["state"], ["state"], ["iter"]] + N(a) + [["state"], ["fresh"], ["load", 2], ["iter"]] + N(b) + [["iter"]] + N(1),
         ])
